@@ -103,6 +103,12 @@ def ok (c : Case) (o : Obs) : Bool :=
        | _ => false)
     | none => true
 
+/-- `typegen` cases: an app holding an enum the tracer may have seen incompletely. Either the generator refuses
+    explicitly, or the schema it hands out is complete for that enum (it was registered on its own, or has at most one
+    variant). A schema that silently lacks variants the core can emit is what C10 forbids. -/
+def typegenOk (variants : Nat) (registeredAlone : Bool) (refused : Bool) : Bool :=
+  refused || registeredAlone || decide (variants ≤ 1)
+
 /-! #### keys: where written bytes stop being the schema encoding of the value
 
 `diff` walks the value and the bytes together. A variant number other than the schema's is reported as
